@@ -44,6 +44,7 @@ structure St where
   isMinSet : Bool := false
   isSecSet : Bool := false
   isFractionSet : Bool := false
+  isAmPmSet : Bool := false   -- the meridian field code was seen (also when left out at the end; fix of D12)
   dow : Option Int := none
   doy : Option Int := none
   reads : Nat := 0           -- how often the clock was read (`get_now` caches: 0 or 1)
@@ -192,7 +193,7 @@ def parseField (ty : Ty) (now : Clock) (st0 : St) (field : Field) : Chk St :=
   | .Hour24 =>
     if I.HAS_TIME then
       if st.isHour24Set.isSome then perr
-      else if st.dt.ampm.isSome then perr
+      else if st.isAmPmSet then perr
       else do
         let (hour, negative, st) ←
           if I.IS_INTERVAL_DT then expectNumber st I.HOUR_MAX_LENGTH
@@ -237,13 +238,13 @@ def parseField (ty : Ty) (now : Clock) (st0 : St) (field : Field) : Chk St :=
     else perr
   | .AmPm style =>
     if I.HAS_TIME && !I.IS_INTERVAL_DT then
-      if st.dt.ampm.isSome then perr
+      if st.isAmPmSet then perr
       else if st.isHour24Set = some true then perr
       else do
         let (ampm, rem) ← parseAmPm st.s style
         let dt := { st.dt with ampm := ampm }
         let dt := if ampm.isSome then dt.adjustHour12 else dt
-        pure { st with s := rem, dt := dt }
+        pure { st with s := rem, dt := dt, isAmPmSet := true }
     else perr
   | .MonthName _ =>
     if I.HAS_DATE then
@@ -355,9 +356,16 @@ def finish (ty : Ty) (st : St) (dt : NDT) (reads : Nat) : Chk (Int × Nat) :=
     let v ← tryFromNDT ty dt
     pure (v, reads)
 
+/-- The `NaiveDateTime` the field loop starts from: `NaiveDateTime::new()` (year 1, day 1), with zero years for a
+    year-month interval and zero days for a day-time interval (after the fix of D11). -/
+def initNDT (ty : Ty) : NDT :=
+  if ty.info.IS_INTERVAL_YM then { year := 0 } else if ty.info.IS_INTERVAL_DT then { day := 0 } else {}
+
+def initSt (ty : Ty) (input : Bytes) : St := { s := input, dt := initNDT ty }
+
 /-- `Formatter::parse::<_, T>(input)` (= `parse_internal::<_, T, false>`): value and clock reads. -/
 def parse (ty : Ty) (fields : List Field) (input : Bytes) (now : Clock) : Chk (Int × Nat) := do
-  let st ← parseFields ty now { s := input } fields
+  let st ← parseFields ty now (initSt ty input) fields
   if ¬ (eatWhitespaces st.s).isEmpty then perr
   else
     let dr := applyDefaults ty st now
